@@ -289,6 +289,8 @@ func ClassifyDump(dump string) string {
 			add("send-waiting-filedone")
 		case strings.Contains(g, "resumeInfoRegistry).wait"):
 			add("send-waiting-resumeinfo")
+		case strings.Contains(g, "SendManifestMultiStream") && strings.Contains(g, "sync.(*WaitGroup).Wait"):
+			add("send-waiting-for-workers")
 		}
 	}
 	if len(kinds) == 0 {
@@ -319,7 +321,7 @@ func ClassifyDump(dump string) string {
 	}
 	// one canonical signature: the receiver-side cause first (the sender waiting for an
 	// acknowledgement is its consequence)
-	for _, k := range []string{"recv-blocked-accepting-data-streams", "recv-reader-waiting-for-unknown-file", "send-waiting-resumeinfo", "send-waiting-filedone"} {
+	for _, k := range []string{"recv-blocked-accepting-data-streams", "recv-reader-waiting-for-unknown-file", "send-waiting-resumeinfo", "send-waiting-filedone", "send-waiting-for-workers"} {
 		for _, e := range kinds {
 			if e == k {
 				return k
